@@ -37,6 +37,30 @@ pub enum Ev {
     Parallel(u8),
     /// harness evaluator that records the slice it was handed
     Recording,
+    /// harness evaluator that also evaluates that many probe solutions of its own while it runs and adds them to the
+    /// evaluation counter itself (what an evaluator does that runs a nested evaluation step, a local refinement, a
+    /// surrogate refit ...): the step adds the population size on top
+    Probing(u8),
+}
+
+const PROBE: [f64; 2] = [99.0, 0.5];
+
+struct Probing {
+    extra: u8,
+}
+impl Evaluate for Probing {
+    type Problem = RealP;
+    fn evaluate(&mut self, problem: &RealP, state: &mut State<RealP>, individuals: &mut [Individual<RealP>]) {
+        for _ in 0..self.extra {
+            let _ = problem.objective(&PROBE.to_vec());
+        }
+        if let Ok(mut e) = state.try_borrow_value_mut::<Evaluations>() {
+            *e += self.extra as u32;
+        }
+        for i in individuals {
+            i.evaluate_with(|s| problem.objective(s));
+        }
+    }
 }
 
 #[derive(Clone, Debug, Serialize, Deserialize)]
@@ -91,7 +115,7 @@ impl Check for StepCheck {
         "C06/evaluation-step".into()
     }
     fn classes(&self) -> &'static [&'static str] {
-        &["population >= 2", "parallel with >= 2 threads", "missing evaluator", "evaluator in outer scope", "empty population or stack", "duplicates by value", "already evaluated individuals", "missing evaluator for a step nested in control flow"]
+        &["population >= 2", "parallel with >= 2 threads", "missing evaluator", "evaluator in outer scope", "empty population or stack", "duplicates by value", "already evaluated individuals", "missing evaluator for a step nested in control flow", "the evaluator advances the evaluation counter itself while it runs"]
     }
     fn oracle(&self, c: &StepCase) -> Outcome {
         let mut cl = 0;
@@ -114,6 +138,9 @@ fn insert_eval<I: Identifier>(reg: &mut StateRegistry<'static>, c: &StepCase, se
         }
         Ev::Recording => {
             reg.insert(Evaluator::<RealP, I>::new(Recording { seen: seen.clone() }));
+        }
+        Ev::Probing(extra) => {
+            reg.insert(Evaluator::<RealP, I>::new(Probing { extra }));
         }
     }
 }
@@ -252,9 +279,13 @@ fn step_oracle<I: Identifier>(c: &StepCase, cl: &mut u64) -> Result<(), Failure>
         let want = problem.f(s);
         ensure_that!(i.get_objective().map(|o| o.value()) == Some(want), "C06 individual not evaluated with the problem's objective", "{at}: position {k}: objective {:?}, f = {want}", i.get_objective());
     }
-    ensure_that!(evals == Some(n as u32), "C06 evaluation counter not advanced by the population size", "{at}: Evaluations = {evals:?}, population size {n}");
+    let extra = if let Ev::Probing(x) = c.evaluator { x as usize } else { 0 };
+    if extra > 0 {
+        *cl |= 256;
+    }
+    ensure_that!(evals == Some((n + extra) as u32), "C06 evaluation counter not advanced by the population size", "{at}: Evaluations = {evals:?}, population size {n}, evaluations the evaluator counted itself while it ran: {extra}");
     let mut log = problem.instr.log_from(0);
-    let mut want: Vec<u64> = sols.iter().map(|s| hash_f64s(s)).collect();
+    let mut want: Vec<u64> = sols.iter().map(|s| hash_f64s(s)).chain((0..extra).map(|_| hash_f64s(&PROBE))).collect();
     log.sort();
     want.sort();
     ensure_that!(log == want, "C06 objective not called exactly once per individual", "{at}: {} objective calls for {n} individuals (as multisets of solutions: differ)", calls);
@@ -446,6 +477,9 @@ struct A6<P: Instrumented> {
     max_per_pass: u32,
     evals_at_pass_start: u32,
     max_evals_per_pass: u32,
+    /// the run's evaluator is `EvalKind::Probing`: one more objective call (on the first solution) and one more counted
+    /// evaluation per non-empty evaluation
+    probing: bool,
     _p: std::marker::PhantomData<fn() -> P>,
 }
 
@@ -500,11 +534,15 @@ impl<P: Instrumented> Audit<P> for A6<P> {
                 }
                 // the counter of the scope the evaluator resolves to
                 let evals1 = state.try_get_value::<Evaluations>().unwrap_or(0);
-                if evals1.wrapping_sub(evals0) != hashes.len() as u32 {
-                    return fail("evaluation counter not advanced by the population size", format!("Evaluations {evals0} -> {evals1} for a population of {}", hashes.len()));
+                let extra = if self.probing && !hashes.is_empty() { 1 } else { 0 };
+                if evals1.wrapping_sub(evals0) != hashes.len() as u32 + extra {
+                    return fail("evaluation counter not advanced by the population size", format!("Evaluations {evals0} -> {evals1} for a population of {} (+ {extra} counted by the evaluator itself)", hashes.len()));
                 }
                 let mut log = problem.instr().log_from(log0);
                 let mut want = hashes.clone();
+                if extra == 1 {
+                    want.push(hashes[0]);
+                }
                 log.sort();
                 want.sort();
                 if log != want {
@@ -527,7 +565,7 @@ impl Check for RunCheck {
         format!("C06/run/{}", TEMPLATE_NAMES[self.0])
     }
     fn classes(&self) -> &'static [&'static str] {
-        &["evaluation step with population >= 2", ">= 2 evaluation steps per pass", "evaluation budget", "parallel evaluator", "out-of-order completion observed"]
+        &["evaluation step with population >= 2", ">= 2 evaluation steps per pass", "evaluation budget", "parallel evaluator", "out-of-order completion observed", "an evaluator that evaluates a probe of its own and counts it itself"]
     }
     fn oracle(&self, c: &RunCase) -> Outcome {
         let mut cl = 0;
@@ -575,12 +613,16 @@ fn run_case<P: Instrumented + Clone + 'static>(c: &RunCase, cfg: ExecResult<Conf
     if c.parallel_threads.is_some() {
         problem.instr().0.jitter.store(1 + c.spec.seed % 3, std::sync::atomic::Ordering::Relaxed);
     }
-    let audit = Arc::new(Mutex::new(A6::<P> { tpl, failure: None, before: None, eval_steps: 0, eval_steps_pop2: 0, per_pass_steps: 0, max_per_pass: 0, evals_at_pass_start: 0, max_evals_per_pass: 0, _p: std::marker::PhantomData }));
+    let audit = Arc::new(Mutex::new(A6::<P> { tpl, failure: None, before: None, eval_steps: 0, eval_steps_pop2: 0, per_pass_steps: 0, max_per_pass: 0, evals_at_pass_start: 0, max_evals_per_pass: 0, probing: c.parallel_threads.is_none() && c.spec.seed % 4 == 1, _p: std::marker::PhantomData }));
     let at = format!("{c:?}");
     let res = match c.parallel_threads {
         Some(t) => {
             *cl |= 8;
             crate::fixtures::pool(t as usize).install(|| run_observed_auto(&cfg, &problem, c.spec.seed, EvalKind::Parallel, audit.clone()))
+        }
+        None if c.spec.seed % 4 == 1 => {
+            *cl |= 32;
+            run_observed_auto(&cfg, &problem, c.spec.seed, EvalKind::Probing, audit.clone())
         }
         None => run_observed_auto(&cfg, &problem, c.spec.seed, EvalKind::Sequential, audit.clone()),
     };
@@ -630,7 +672,7 @@ fn step_strategy() -> impl Strategy<Value = StepCase> {
         prop_oneof![9 => Just(false), 1 => Just(true)],
         0u8..3,
         prop_oneof![6 => Just(0u8), 1 => Just(1u8), 1 => Just(2u8)],
-        prop_oneof![2 => Just(Ev::Sequential), 1 => Just(Ev::Recording), 4 => prop_oneof![Just(1u8), Just(2), Just(4), Just(16)].prop_map(Ev::Parallel)],
+        prop_oneof![2 => Just(Ev::Sequential), 1 => Just(Ev::Recording), 1 => (0u8..5).prop_map(Ev::Probing), 4 => prop_oneof![Just(1u8), Just(2), Just(4), Just(16)].prop_map(Ev::Parallel)],
         any::<bool>(),
         0u8..3,
         (0u64..4, 0u8..6),
